@@ -1047,6 +1047,16 @@ def install(w):
             it.store(r.cell, r.path, mk_some(a[1]))
         return Ref(r.cell, tuple(r.path) + (("as", "Some"), 0), True)
 
+    @reg("Option::get_or_insert_with")
+    def opt_get_or_insert_with(w, it, a, c):
+        r = a[0]
+        old = it.load(r.cell, r.path)
+        if old.variant == "Some":
+            it.drop_value(a[1])
+        else:
+            it.store(r.cell, r.path, mk_some(it.call_closure(a[1], [])))
+        return Ref(r.cell, tuple(r.path) + (("as", "Some"), 0), True)
+
     @reg("Result::and_then")
     def res_and_then(w, it, a, c):
         if a[0].variant == "Ok":
